@@ -630,6 +630,64 @@ def rule_r4b(ctx):
     return rr
 
 
+def rule_r7(ctx):
+    """The driver: root slot, and each child is created with the slot precedence its parent yielded."""
+    rr = RuleResult("C03-R7", "driver: the root is rendered in an expression-level slot; a child is created with (yielded slot precedence, yielded node, parent's quote)")
+    rr.floor = 2
+    U = ctx.ustr
+    prec = U.node_precedences()
+    fi = U.driver
+    node = fi.node
+    wrapper_calls = []
+    owner = None
+    for ci in U.mi.classes.values():
+        if "__init__" in ci.methods and len(ci.methods["__init__"].node.args.args) >= 3:
+            owner = ci
+    for n in ast.walk(node):
+        if isinstance(n, ast.Call) and isinstance(n.func, ast.Name) and owner is not None and n.func.id == owner.name:
+            wrapper_calls.append(n)
+    if len(wrapper_calls) < 2:
+        raise AnalysisError("C03-R7: the driver's node-wrapper constructions were not found")
+    params = [a.arg for a in node.args.args]
+    root = [c for c in wrapper_calls if len(c.args) >= 2 and isinstance(c.args[1], ast.Name) and c.args[1].id in params]
+    child = [c for c in wrapper_calls if c not in root]
+    rr.instances += 1
+    if len(root) != 1:
+        rr.fail("C03-R7|driver|root", f"{fi.where()}: expected one root construction on the function's argument", what="root")
+    else:
+        try:
+            rp = ctx.prog.eval_const(U.mi, root[0].args[0])
+        except Exception:
+            rp = None
+        bad = None
+        if not isinstance(rp, int):
+            bad = f"the root slot precedence `{ast.unparse(root[0].args[0])}` is not a constant"
+        else:
+            for v in ("NamedExpr", "Yield", "YieldFrom", "GeneratorExp"):
+                vp = prec.get(v)
+                if isinstance(vp, int) and not U.wraps(vp, rp):
+                    bad = f"a top-level {v} (precedence {vp}) is printed without parentheses in the root slot (precedence {rp}): `x:=1` / a bare generator is not an expression eval() accepts"
+        if bad:
+            rr.fail("C03-R7|driver|root-slot", f"{fi.where()} line {root[0].lineno}: {bad}", where=fi.where(), what="root")
+        else:
+            rr.ok("root", sample={"rule": "C03-R7", "root_slot": ast.unparse(root[0].args[0]), "precedence": rp})
+    rr.instances += 1
+    # the tuple received from the generator
+    recv = None
+    for n in ast.walk(node):
+        if isinstance(n, ast.Assign) and isinstance(n.targets[0], ast.Tuple) and len(n.targets[0].elts) == 2 and isinstance(n.value, ast.Call) and isinstance(n.value.func, ast.Attribute) and n.value.func.attr in ("send", "__next__"):
+            recv = [e.id for e in n.targets[0].elts if isinstance(e, ast.Name)]
+    okc = False
+    if recv and len(recv) == 2 and len(child) == 1 and len(child[0].args) >= 3:
+        a0, a1, a2 = child[0].args[:3]
+        okc = isinstance(a0, ast.Name) and a0.id == recv[0] and isinstance(a1, ast.Name) and a1.id == recv[1] and isinstance(a2, ast.Attribute) and a2.attr == "qm"
+    if okc:
+        rr.ok("child", sample={"rule": "C03-R7", "child": ast.unparse(child[0])[:80]})
+    else:
+        rr.fail("C03-R7|driver|child-construction", f"{fi.where()}: a child node is not created with (the slot precedence yielded by its parent, the yielded node, the parent's quote): `{ast.unparse(child[0])[:80] if child else '?'}`", where=fi.where(), what="child")
+    return rr
+
+
 def rule_r6(ctx):
     rr = RuleResult("C03-R6", "shapes emitted by the converter lie inside the checked space; possibly-negative numeric constants only in factor-level slots")
     rr.floor = 50
@@ -754,4 +812,4 @@ def lambda_skeleton_rule(ctx):
     return rr
 
 
-RULES = [("C03-R1", rule_r1), ("C03-R2", rule_r2), ("C03-R3", rule_r3), ("C03-R4", rule_r4), ("C03-R4b", rule_r4b), ("C03-R5", rule_r5), ("C03-R6", rule_r6), ("C11-R6", lambda_skeleton_rule)]
+RULES = [("C03-R1", rule_r1), ("C03-R2", rule_r2), ("C03-R3", rule_r3), ("C03-R4", rule_r4), ("C03-R4b", rule_r4b), ("C03-R5", rule_r5), ("C03-R6", rule_r6), ("C03-R7", rule_r7), ("C11-R6", lambda_skeleton_rule)]
